@@ -1466,7 +1466,14 @@ def translate(obj, vec, **kwargs):
             new_ctrlpts.append(temp)
         g.ctrlpts = new_ctrlpts
 
+    _reset_container(geom)
     return geom
+
+
+def _reset_container(geom):
+    # Containers cache data derived from their elements
+    if not isinstance(geom, abstract.Geometry):
+        geom.reset()
 
 
 @export
@@ -1563,6 +1570,7 @@ def rotate(obj, angle, **kwargs):
     for g in geom:
         rotfunc[axis](g, origin, angle)
 
+    _reset_container(geom)
     return geom
 
 
@@ -1598,6 +1606,7 @@ def scale(obj, multiplier, **kwargs):
             new_ctrlpts[idx] = [p * float(multiplier) for p in pts]
         g.ctrlpts = new_ctrlpts
 
+    _reset_container(geom)
     return geom
 
 
@@ -1646,6 +1655,7 @@ def transpose(surf, **kwargs):
         g.knotvector_u = kv_u_new
         g.knotvector_v = kv_v_new
 
+    _reset_container(geom)
     return geom
 
 
@@ -1682,4 +1692,5 @@ def flip(surf, **kwargs):
             idx -= 1
         g.set_ctrlpts(new_cpts, size_u, size_v)
 
+    _reset_container(geom)
     return geom
